@@ -9,7 +9,7 @@ stage P: on generated problems of all three physics (planar + axisymmetric): per
          volume); contour length along drawn entities vs drawn length; electrostatic energy vs half the sum of V*q of the
          conductors; magnetostatic energy vs half the integral of A.J and vs coenergy
 """
-import math, os, shutil, sys, copy
+import copy, math, os, shutil, sys
 sys.path.insert(0, os.path.join(os.path.dirname(os.path.dirname(os.path.abspath(__file__))), "harness", "py"))
 from tools import vlib
 from tools.vlib import d2tok, tok2d
@@ -38,6 +38,52 @@ def region_volume_axi(r):
     return 2 * math.pi * (mom(r["outer"]) - sum(mom(h) for h in r["inner"]))
 
 
+
+def axi_energy_identity_errors(build, work, name, p):
+    """(|W - 1/2 int A.J| / W, |W - 1/2 sum I*Lambda| / W or None) of a magnetostatic problem through the real tools (all blocks selected)"""
+    run = Run(build, work, name, p)
+    if run.mesh() != 0 or run.solve() != 0:
+        return None
+    s = lua_post.Session("m", "p" + femmio.EXT["m"], analyze=False)
+    s.group_select()
+    s.block_integral("W", 2)
+    s.block_integral("AJ", 0)
+    s.clear_blocks()
+    used = [c for ci_, c in enumerate(p.circprops) if any(l_["circ"] == ci_ for l_ in p.labels)]
+    for c in used:
+        s.conductor("T_" + c["name"], c["name"])
+    rc, out, raw = s.run(build, run.dir, timeout=900)
+    r_ = lambda z: z.real if isinstance(z, complex) else z
+    if rc != 0 or out.get("W", [None])[0] is None or out.get("AJ", [None])[0] is None or not r_(out["W"][0]) > 0:
+        return None
+    W = r_(out["W"][0])
+    eAJ = abs(W - 0.5 * r_(out["AJ"][0])) / W
+    eT = None
+    if used and not any(m.get("J_re") for m in p.blockprops) and all(out.get("T_" + c["name"]) and len(out["T_" + c["name"]]) >= 3 and out["T_" + c["name"]][2] is not None for c in used):
+        eT = abs(W - sum(0.5 * r_(out["T_" + c["name"]][0]) * r_(out["T_" + c["name"]][2]) for c in used)) / W
+    return eAJ, eT
+
+
+def axi_mesh_level(build, work, name, p, err, which):
+    """the axisymmetric energy / A.J / flux-linkage integrals use different quadratures of the modified potential, so the identities hold to
+    mesh accuracy only (known finding) - decided, not assumed: on a mesh four times as fine the deviation must at least halve"""
+    if not (err < 0.5):
+        return False
+    for fac in (0.25, 0.125):
+        # (coarse meshes are not in the asymptotic range: 2.1e-4, 8.0e-4, 1.5e-4, 9.7e-8 at mesh sizes 1, 1/2, 1/4, 1/8 on one drawing -
+        #  a wrong weight or unit would stay where it is under refinement)
+        pf = copy.deepcopy(p)
+        for lab_ in pf.labels:
+            if lab_["meshsize"] > 0:
+                lab_["meshsize"] *= fac
+        ef = axi_energy_identity_errors(build, work, name + "_fine%d" % int(1 / fac), pf)
+        if ef is None or ef[which] is None:
+            return False
+        if ef[which] < 0.5 * err or max(err, ef[which]) < 1e-4:
+            return True
+    return False
+
+
 def main(argv):
     ck = vlib.Check("C13", "proof", argv)
     ck.cov["rule"] = ("generated problems (nested boxes, materials, conductors / circuits, several labels in several groups) of all three "
@@ -54,11 +100,13 @@ def main(argv):
                  contours=0, by_physics={})
     plan = [("e", False, False), ("e", True, False), ("h", False, False), ("m", False, False), ("m", True, False), ("h", True, False),
             ("m", False, True), ("m", True, True)]      # last two: time-harmonic magnetics (additivity, geometry; no static energy identity)
+    plan_base = list(plan)
     if ck.tier == "thorough":
         plan = plan * 6
     try:
         for t, (kind, axi, harm) in enumerate(plan):
-            p = gen.gen_rects(kind, rng, units=rng.choice(["millimeters", "centimeters", "inches", "meters"]))
+            # (axisymmetric magnetics is drawn in a unit other than metres: radii enter its integrands with and without the length conversion)
+            p = gen.gen_rects(kind, rng, units=rng.choice(["millimeters", "centimeters", "inches"] + ([] if (kind == "m" and axi) else ["meters"])))
             p.ptype = "axi" if axi else "planar"
             p.smartmesh = 0
             p.precision = 1e-10
@@ -91,6 +139,9 @@ def main(argv):
                     p.circprops[0]["V"] = 25.0
             if kind == "m":
                 keep_lam = rng.random() < 0.5
+                # (decided per problem, not by the position in the plan: planar AND axisymmetric problems get solid conductors in circuits)
+                keep_sigma = (t // len(plan_base)) % 2 == 0        # (the quick tier has one repetition: it keeps them)
+                stats["conducting_magnetics_problems"] = stats.get("conducting_magnetics_problems", 0) + int(keep_sigma)
                 stats["laminated_magnetics_problems"] = stats.get("laminated_magnetics_problems", 0) + int(keep_lam and any("LamType" in m for m in p.blockprops))
                 for m in p.blockprops:
                     m.pop("H_c", None)
@@ -100,7 +151,7 @@ def main(argv):
                         # on-edge laminations are defined for isotropic iron: the solvers take ONE permeability (mu_x for type 1, mu_y for
                         # type 2) for both directions, the post-processor pairs mu_x / mu_y with the directions - they agree when mu_x = mu_y
                         m["Mu_y"] = m["Mu_x"]
-                    if t % 2 == 0:
+                    if not keep_sigma:
                         m.pop("Sigma", None)       # every second magnetics problem keeps its conductivities: resistive losses are non-trivial
                 p.bdryprops = [b for b in p.bdryprops if b["type"] == 0]
                 for b in p.bdryprops:
@@ -123,6 +174,21 @@ def main(argv):
                 for lab in p.labels:
                     if lab["circ"] >= 0 and p.circprops[lab["circ"]]["type"] == 0:
                         lab["turns"] = 1
+                if not any(l_["circ"] == 0 for l_ in p.labels):
+                    # every magnetics problem has a circuit with a region (the generator draws 0-2 circuits)
+                    if not p.circprops:
+                        p.circprops = [dict(name="c0", I_re=rng.choice([1.0, -2.0, 0.5]), type=rng.choice([0, 1]))]
+                    lab_ = p.labels[1 if len(p.labels) > 1 else 0]
+                    lab_["circ"] = 0
+                    lab_["turns"] = 1 if p.circprops[0]["type"] == 0 else rng.choice([1, 5])
+                if keep_sigma and not harm:
+                    # the regions of the first circuit are solid conductors (one turn, conducting): the solver applies a voltage gradient
+                    # there (circuit record case 0), the branch of the post-processor's current density that differs planar / axisymmetric
+                    for lab in p.labels:
+                        if lab["circ"] == 0:
+                            lab["turns"] = 1
+                            if not p.blockprops[lab["block"]].get("Sigma"):
+                                p.blockprops[lab["block"]]["Sigma"] = 10.0
                 if harm:
                     p.freq = rng.choice([50.0, 400.0])
                     stats["harmonic_magnetics_problems"] = stats.get("harmonic_magnetics_problems", 0) + 1
@@ -405,7 +471,7 @@ def main(argv):
                         stats["worst_energy_vs_linkage_error"] = max(stats.get("worst_energy_vs_linkage_error", 0.0), errT)
                         stats["energy_vs_linkage_checked"] = stats.get("energy_vs_linkage_checked", 0) + 1
                         if not (errT <= 1e-6):
-                            ck.violation("energy-vs-AJ:m:axi:mesh-level" if (axi and errT < 0.1) else "energy-vs-linkage:m:%s" % ("axi" if axi else "planar"),
+                            ck.violation("energy-vs-AJ:m:axi:mesh-level" if (axi and axi_mesh_level(build, work, "p%d_T" % t, p, errT, 1)) else "energy-vs-linkage:m:%s" % ("axi" if axi else "planar"),
                                          "stored energy %.9g J, half the sum of circuit current x flux linkage %.9g J (%s)" % (W_all, half, p.ptype), dict(files=run.files()))
                 if W_all > 0:
                     err = max(abs(W_all - 0.5 * AJ), abs(W_all - Wc)) / W_all
@@ -413,7 +479,7 @@ def main(argv):
                     if err > 1e-6:
                         # axisymmetric magnetics: the energy and A.J integrals use different quadratures of the modified
                         # potential; they agree to mesh accuracy only (same finding class as C11's axisymmetric reciprocity)
-                        ck.violation("energy-vs-AJ:m:axi:mesh-level" if (axi and err < 0.1) else "energy-vs-AJ:m:%s" % ("axi" if axi else "planar"), "stored energy %.9g J, half of int A.J %.9g J, coenergy %.9g J (%s)" % (W_all, 0.5 * AJ, Wc, p.ptype),
+                        ck.violation("energy-vs-AJ:m:axi:mesh-level" if (axi and abs(W_all - Wc) <= 1e-6 * W_all and axi_mesh_level(build, work, "p%d_A" % t, p, err, 0)) else "energy-vs-AJ:m:%s" % ("axi" if axi else "planar"), "stored energy %.9g J, half of int A.J %.9g J, coenergy %.9g J (%s)" % (W_all, 0.5 * AJ, Wc, p.ptype),
                                      dict(files=run.files()))
     finally:
         shutil.rmtree(work, ignore_errors=True)
